@@ -402,4 +402,8 @@ impl FrequencySketch {
             table: self.table.to_vec(),
         }
     }
+
+    pub(crate) fn verif_size(&self) -> u32 {
+        self.size
+    }
 }
